@@ -323,6 +323,18 @@ def gcpWld2pix (Q : Pt → Pt) (g : GeoBox) (w : Pt) : Res Pt := do
 /-- `GCPGeoBox.approx`: `GeoBox(shape, mapping.approx * affine, crs)` -/
 def gcpApprox (B : Aff) (g : GeoBox) : GeoBox := mulWld B g
 
+/-! ### model selection of the GCP fit (`Poly2d.fit`, math.py:693-714)
+
+Number of polynomial terms fitted to `n` control points: 3 (affine) for `n = 3`, 4 (bilinear)
+for `4 ≤ n ≤ 8`, 9 (bi-quadratic) for `n ≥ 9`; fewer than 3 points are rejected.  That the chosen
+family reproduces exactly representable data of that family is C20's
+`poly_fit_exact_affine / _bilinear / _biquadratic`. -/
+def fitKind (n : Nat) : Res Nat :=
+  if n < 3 then .error .valueError
+  else if n ≥ 9 then .ok 9
+  else if n ≥ 4 then .ok 4
+  else .ok 3
+
 /-! ### table of public accessors
 
 Every public attribute of `GeoBox` / `GCPGeoBox` and every public function of
